@@ -443,3 +443,61 @@ def rf13c(run):
     # callers: _reduce_dict_add is called once per consumed position in the encoding loop
     callers = [g.name for g in tu.func_list for n in g.walk() if n['k'] == 'CallExpr' and n.get('callee') == '_reduce_dict_add']
     run.ob(rule, ('callers',), bool(callers), {'callers': sorted(set(callers))})
+
+
+# ---------------------------------------------------------------------------------------------
+# RF13w: numbers read from the stream cannot make the 32-bit range tests wrap
+# ---------------------------------------------------------------------------------------------
+
+def rf13w(run):
+    from lib import printexec as PE
+    rule = 'RF13w'
+    run.rule(rule, 'mir-reduce.h: the range tests of the decoder (`pos + len > BUF_LEN`) are computed in uint32_t; they bound the access only '
+                   'if the number read from the stream cannot make the sum wrap.  _reduce_uint_read, executed abstractly for each of the 256 '
+                   'first bytes with maximal continuation bytes, returns a negative value or a value below 2^28 (what the encoder writes), '
+                   'and 2^28 + the length bias + the buffer length fits in 32 bits')
+    tu = run.tu('mir')
+    f = tu.func('_reduce_uint_read')
+    run.functions_analysed.add(('mir', '_reduce_uint_read'))
+    n = 0
+    worst = None
+    for first in range(256):
+        seq = [first]
+
+        def get(args, env, ex):
+            return seq.pop(0) if seq else 255
+        ex = PE.PrintExec(tu, {}, {'_reduce_get': get}, {})
+        ex.retval = 'none'
+        r = ex.run(f.body, {})
+        if r != 'return' or ex.retval in (None, 'none'):
+            raise F.AnalysisBroken('_reduce_uint_read: result for first byte 0x%02x not evaluable' % first)
+        n += 1
+        v = ex.retval
+        ok = v < 0 or v < (1 << 28)
+        run.ob(rule, ('first byte', first), ok, {'first byte': '0x%02x' % first, 'largest result': v} if first % 64 == 0 or not ok else None)
+        if not ok and worst is None:
+            worst = (first, v)
+    if worst is not None:
+        run.violation(rule, f, 'unbounded number', '_reduce_uint_read returns %d (>= 2^28) for a number starting with byte 0x%02x: the decoder adds '
+                      'it to a buffer position in uint32_t, the sum wraps around, the range test passes and memcpy / the reader callback '
+                      'gets a length of up to 4GB (a damaged stream makes the decoder write outside its buffer)' % (worst[1], worst[0]),
+                      line=f.node['l'] if hasattr(f, 'node') else None)
+    # the constants of the range tests
+    g = tu.func('reduce_decode_get')
+    bounds = set()
+    for x in g.walk():
+        if x['k'] == 'BinaryOperator' and x['op'] == '>' and F.strip(x['c'][0])['k'] == 'BinaryOperator' and F.strip(x['c'][0])['op'] == '+':
+            c = F.const_value(F.strip(x['c'][1]))
+            if c is not None:
+                bounds.add(c)
+    bias = [F.const_value(F.strip(x['c'][1])) for x in g.walk() if x['k'] == 'CompoundAssignOperator' and x['op'] == '+='
+            and F.src(F.strip(x['c'][0])) == 'ref_len']
+    if not bounds or not bias or None in bias:
+        raise F.AnalysisBroken('reduce_decode_get: range tests / length bias not recognised')
+    n += 1
+    ok = (1 << 28) + max(bias) + max(bounds) < (1 << 32)
+    run.ob(rule, ('sum fits',), ok, {'largest number': (1 << 28) - 1, 'bias': max(bias), 'buffer length': max(bounds)})
+    if not ok:
+        run.violation(rule, g, 'range sum', 'a number below 2^28 plus the bias %d plus a position up to %d does not fit in 32 bits'
+                      % (max(bias), max(bounds)))
+    return n
